@@ -546,7 +546,9 @@ impl BasicRam {
     }
 
     fn load_program(&mut self, start: usize, data: &[u8]) {
-        self.ram[start..start + data.len()].clone_from_slice(data);
+        // A bank may be larger than what is left of the address space (a sized, padded bank): the cpu sees what fits
+        let len = data.len().min(self.ram.len().saturating_sub(start));
+        self.ram[start..start + len].clone_from_slice(&data[..len]);
     }
 }
 
